@@ -174,7 +174,12 @@ class Executor:
             self.p.stdin.flush()
         except BrokenPipeError:
             return self._died("broken pipe on write")
+        # Whatever the code under test prints before the result line (e.g. with `:trace`
+        # on, tens of megabytes) is discarded as it streams by; only the tail that may
+        # hold the marker is kept, so reading stays linear.
+        marker = b"\n@@VERIF-RESULT@@"
         buf = b""
+        found = False
         deadline = time.time() + self.timeout
         fd = self.p.stdout.fileno()
         while True:
@@ -186,13 +191,23 @@ class Executor:
                 if self.p.poll() is not None:
                     return self._died("exited")
                 continue
-            chunk = os.read(fd, 1 << 16)
+            chunk = os.read(fd, 1 << 20)
             if not chunk:
                 return self._died("eof")
-            buf += chunk
-            if buf.endswith(b"\n") and b"\n@@VERIF-RESULT@@" in buf:
-                i = buf.rindex(b"\n@@VERIF-RESULT@@")
-                if b"\n" in buf[i + 1:]:
+            if found:
+                buf += chunk
+            else:
+                buf = buf[-len(marker):] + chunk
+                i = buf.rfind(marker)
+                if i >= 0:
+                    buf = buf[i:]
+                    found = True
+            if found and buf.endswith(b"\n") and b"\n" in buf[1:]:
+                # a later marker inside the same burst of output wins
+                j = buf.rfind(marker)
+                if j > 0:
+                    buf = buf[j:]
+                if buf.endswith(b"\n") and b"\n" in buf[1:]:
                     break
         try:
             i = buf.rindex(b"\n@@VERIF-RESULT@@")
